@@ -71,8 +71,8 @@ CLAIMED = {
  "C10": ("eng-codec", "typed value generator with an independent contract-side encoder and JSON renderer vs schema_json conversions; panic/allocation monitors on hostile bytes",
    "Exploration: schema Types are generated to depth 32 with all constructors and size lengths; for each a typed value is generated from which the harness derives both the JSON form and the expected bytes with its own encoder; serial_value(json) must equal the expected bytes and to_json(bytes) the normalised JSON; hostile (Type, bytes) pairs - including declared byte-list/array lengths up to 2^32-1 - must return an error within counted allocation bounds; generated module schemas of every version round-trip with and without prefix and in base64.",
    "Trusted: the harness encoder/JSON renderer (written from the documented rules). Nesting > 32 and zero-width collections declaring > 2^16 elements are outside the claim (O1, O2). Fixed finding F17 is a regression input."),
- "C16": ("eng-codec", "round-trip/canonicity/allocation oracles for contract-side types + independent grammar recognisers + u128/i128 reference arithmetic",
-   "Exploration: 63 contract-side binary types are round-tripped and decoded from mutated and random bytes (ordered collections must reject duplicate/unordered input where documented); Display/FromStr pairs of amounts, timestamps, durations, addresses and names must round-trip; validators for contract, receive and entrypoint names, amounts, durations and hex keys/signatures are compared with independent recognisers on grammar-generated and mutated strings; checked arithmetic is compared with u128/i128 reference arithmetic.",
+ "C16": ("eng-codec", "round-trip/canonicity/allocation oracles for contract-side types + independent grammar recognisers + u128/i128 reference arithmetic + Miri on the unsafe decoders",
+   "Exploration: 63 contract-side binary types are round-tripped and decoded from mutated and random bytes (ordered collections must reject duplicate/unordered input where documented); Display/FromStr pairs of amounts, timestamps, durations, addresses and names must round-trip; validators for contract, receive and entrypoint names, amounts, durations and hex keys/signatures are compared with independent recognisers on grammar-generated and mutated strings; checked arithmetic is compared with u128/i128 reference arithmetic; a reduced set of the binary cases is re-run under Miri (unsafe blocks of impls.rs / traits.rs).",
    "Trusted: the recognisers (written from the doc comments). Open known finding F19 (Timestamp text form beyond year 9999 / 2^63 ms) is listed in known_findings.json; duration strings whose total exceeds u64 are outside the claim (O4). Fixed finding F16 is a regression input."),
  "C17": ("eng-codec", "round-trip + determinism + independent CBOR well-formedness/canonical-form checker on encoder output + known-invalid edits on decoder input",
    "Exploration: generic CBOR values (depth <= 64, integers at every head-width boundary, tags, decimal fractions) and 33 protocol-level-token types are encoded, decoded and re-encoded; encoder output is checked by an independent parser for definite lengths, shortest heads and sorted map keys; valid encodings are edited in known-invalid ways (trailing byte, missing mandatory key, undeclared key, wrong major type, truncation, inflated length) and must be rejected unless the type or the options declare otherwise; unknown fields/variants must be preserved where declared; TokenAmount is compared across binary, decimal-string and JSON forms with big-integer arithmetic.",
